@@ -25,11 +25,16 @@ ASSUMPTIONS = [
     "children or authentication/recordDelimiter children that differ in what they carry",
     "'any tree built from known element names' excludes unknown names and non-text content, not invalid structure",
 ]
-REQUIRED = ["vocabulary_sweep_trees", "re_evaluated_after_in_place_edit", "empty_descriptions_planted", "tree_calls", "node_calls", "valid_trees_compared", "warnings_compared", "prior_entries_preserved_checks", "title_at_threshold",
+REQUIRED = ["calls_into_a_list_of_about_1000_and_more_entries", "evaluated_elements_written_with_a_bound_prefix", "packages_with_hundreds_of_parties", "vocabulary_sweep_trees", "re_evaluated_after_in_place_edit", "empty_descriptions_planted", "tree_calls", "node_calls", "valid_trees_compared", "warnings_compared", "prior_entries_preserved_checks", "title_at_threshold",
             "abstract_at_threshold", "keywords_at_threshold"]
 EXHAUSTIVE = {"quick": False, "thorough": False}
 
 WORD = ["Darwin´s", "na¨ive", "25˚C", "km²", "ﬁeld", "soil", "carbon", "flux", "lake", "data", "annual", "survey", "of", "the", "northern", "plots", "2019", "été", "N₂O"]
+
+
+# (the element names the documented recommendations speak about - written down here, not read from the tree under test)
+EVALUATED_NAMES = ("associatedParty", "contact", "creator", "dataset", "dataTable", "description", "individualName", "metadataProvider", "otherEntity",
+                   "personnel", "title")
 
 
 def plan(tier, seed):
@@ -214,6 +219,12 @@ def judge(ctx, root, origin, compare):
         return plain
 
     sentinel = [("earlier entry",), ("another",)]
+    size = len(treegen.all_nodes(root))
+    if size % 5 == 0:
+        # the list of a batch run, a thousand and more entries long already
+        sentinel = sentinel + [("entry of an earlier package", k) for k in range(997 + size % 3 + (4000 if size % 10 == 0 else 0))]
+        ctx.count("calls_into_a_list_of_about_1000_and_more_entries")
+    n_prior = len(sentinel)
     warnings = list(sentinel)
     try:
         r = evaluate.tree(root, warnings)
@@ -226,10 +237,10 @@ def judge(ctx, root, origin, compare):
     ctx.evaluated()
     ctx.count("tree_calls")
     ctx.count("prior_entries_preserved_checks")
-    if warnings[:2] != sentinel or any(w is s for w, s in zip(warnings[2:], sentinel)):
+    if warnings[:n_prior] != sentinel or any(w is s for w, s in zip(warnings[n_prior:], sentinel)):
         ctx.violation("earlier-entries-disturbed", "entries present before the call were changed, removed or reordered", wit())
         return
-    got = warnings[2:]
+    got = warnings[n_prior:]
     if not check_entries(ctx, got, wit, "evaluate.tree"):
         return
     nodes = treegen.all_nodes(root)
@@ -313,6 +324,17 @@ def run(ctx, params):
         if rng.random() < 0.3:
             treegen.decorate_like_import(rng, root)
         tweak(rng, root, ctx)
+        if i % 4 == 1:
+            # elements written with a prefix that their own map binds to another vocabulary's namespace (a Dublin Core record pasted in, an
+            # stmml description): the recommendations go by element name, as validation does
+            named = [x for x in treegen.all_nodes(root) if x.name in EVALUATED_NAMES]
+            for x in rng.sample(named, min(4, len(named))):
+                px, uri = rng.choice([("dc", "http://purl.org/dc/elements/1.1/"), ("stmml", "http://www.xml-cml.org/schema/stmml-1.2"),
+                                      ("eml", "https://eml.ecoinformatics.org/eml-2.2.0"), ("eml", "eml://ecoinformatics.org/eml-2.1.1"),
+                                      ("x", "urn:x"), ("d", "")])
+                x.prefix = px
+                x.add_namespace(px, uri)
+                ctx.count("evaluated_elements_written_with_a_bound_prefix")
         ctx.case(judge, ctx, root, "valid+threshold-tweaks", True)
         if i % 3 == 0:
             # the same node objects, edited in place after they were evaluated, evaluated again
@@ -341,6 +363,17 @@ def run(ctx, params):
                 pass
             ctx.sample({"root": root.name, "nodes": len(treegen.all_nodes(root)), "warnings": sorted({e[0].name for e in w})[:12]})
         emlkit.discard(root)
+    # one package with more than a thousand recommendations (hundreds of parties without ids, hundreds of tables without physical details)
+    for count in (340, 1100):
+        t = treegen.Gen(exclude={"references"}).minimal_tree("dataset")
+        model = next((x for x in t.children if x.name == "creator"), None)
+        if model is not None:
+            at = t.children.index(model)
+            for k in range(count):
+                t.add_child(model.copy(), at)
+            ctx.count("packages_with_hundreds_of_parties")
+            ctx.case(judge, ctx, t, f"dataset with {count} creators", True, seconds=300.0)
+        emlkit.discard(t)
     # special shapes
     for shape in range(6):
         if shape == 0:
